@@ -6,6 +6,7 @@ from ..nf import Rat, C
 from ..source import Unsupported, AnchorError
 from ..xlate import Interp, Obj, ListV, DictV, Raised, RankOrder, ArgV
 from .common import same, show, sig
+from .rxnfix import make_reaction
 
 PD = 'pmutt.reaction.phasediagram.PhaseDiagram'
 
@@ -217,6 +218,57 @@ def e_span(run, repo, max_states):
                           '[path of %d states ordering=%s units=%s] span is %s, expected highest minus lowest%s'
                           % (ns, perm, units, show(got, 120), ' plus last minus first' if imax < imin else ''),
                           m, fn2)
+    # the network built by the real constructor: every state node carries its own species and coefficients, and the
+    # span over a path through a step with a transition state uses them (a coefficient taken from another state of
+    # the same step changes the energies the span is computed from)
+    owner_i, fn_i = repo.find_method(nci, '__init__')
+    upd = repo.find_method(nci, 'update_network', missing_ok=True)
+    s2s = m.functions.get('state_to_set')
+    if s2s is None:
+        raise AnchorError('pmutt.reaction.network.state_to_set not found')
+    for units in (None, 'kJ/mol'):
+        meth = 'get_G' if units else 'get_GoRT'
+        for order_name, vals in (('highest after lowest', {'A': 1, 'TS1': 10, 'B': 2, 'TS2': 4, 'C': 1}),
+                                 ('highest before lowest', {'A': 5, 'TS1': 20, 'B': 1, 'TS2': 2, 'C': 4})):
+            ranks = {}
+            I = Interp(repo, order=RankOrder(ranks, const_ranks=True, witness=True))
+            D = I.D
+            sp = {}
+            for nm in ('A', 'TS1', 'B', 'TS2', 'C'):
+                o = Obj(nm, attrs={'name': nm, 'elements': DictV({'X': C(1)})})
+                o.missing.add('reaction')
+
+                def g(I_, obj, args, kwargs, meth=meth):
+                    return I_.D.sym('%s.%s' % (obj.name, meth))
+                o.opaque_methods[meth] = g
+                o.opaque_params[meth] = ('T', 'units')
+                sp[nm] = o
+                ranks['%s.%s' % (nm, meth)] = vals[nm]
+            # A = TS1 = 2 B ;  2 B = 3 TS2 = C   (transition-state coefficients differ from both neighbours)
+            r1 = make_reaction(I, repo, 'pmutt.reaction.Reaction', [sp['A']], [C(1)], [sp['B']], [C(2)],
+                               [sp['TS1']], [C(1)], name='r1')
+            r2 = make_reaction(I, repo, 'pmutt.reaction.Reaction', [sp['B']], [C(2)], [sp['C']], [C(1)],
+                               [sp['TS2']], [C(3)], name='r2')
+            net = I.construct(nci, [], {'reactions': ListV([r1, r2])}, name='net')
+            label = 'A = TS1 = 2B; 2B = 3TS2 = C, %s, units=%s' % (order_name, units)
+            if not isinstance(net, Obj):
+                run.fail('REF.span', 'Network.__init__', label, 'the network is not built: %s' % show(net), m, fn_i)
+                continue
+            states = [([sp['A']], [C(1)]), ([sp['TS1']], [C(1)]), ([sp['B']], [C(2)]), ([sp['TS2']], [C(3)]),
+                      ([sp['C']], [C(1)])]
+            path = ListV([I.call_function(m, s2s, [ListV(a_), ListV(list(b_))], {}) for a_, b_ in states])
+            got = I.call_method(net, 'get_E_span', [], {'path': path, 'units': units, 'T': D.sym('T')})
+            G = [D.sym('%s.%s' % (a_[0].name, meth)) * b_[0] for a_, b_ in states]
+            gv = [vals[a_[0].name] * int(b_[0].const_value()) for a_, b_ in states]
+            imax, imin = gv.index(max(gv)), gv.index(min(gv))
+            want = G[imax] - G[imin]
+            if imax < imin:
+                want = want + G[-1] - G[0]
+            n += 1
+            run.check(isinstance(got, Rat) and got.eq(want), 'REF.span', 'Network.update_network', label,
+                      'the span over the path through both steps is %s, expected %s (every state weighted with its own '
+                      'coefficients)' % (show(got, 160), show(want, 160)), m, upd[1] if upd else fn_i,
+                      sample='Network(%s): span %s' % (label, show(want, 100)))
     return n
 
 
